@@ -56,6 +56,12 @@ Record ctx_table := {
   ct_memo_cmp : Z;                               (* the comparison inside default_memoize_register's `position` closure:
                                                     0 = `*val == reg` (exact), 1 = eq_ignore_ascii_case *)
   ct_groups : list (list name * list name);  (* register_is_valid, Some(which): patterns => which.contains(a) || ...; `_ => which.contains(reg)` *)
+  (* the conditions of the validity test and of the checked read, as expressions over the calls they make:
+     [BVar v_memo] = `self.memoize_register(reg).is_some()`, [BVar v_contains] = `which.contains(reg)`,
+     [BVar v_iv] = `self.register_is_valid(reg, valid)` *)
+  ct_valid_all : bexp;                           (* register_is_valid, validity All (the `else` branch) *)
+  ct_valid_default : bexp;                       (* register_is_valid, Some(which): the `_` arm / the trait default's Some branch *)
+  ct_get_cond : bexp;                            (* get_register: the condition under which it reads *)
   ct_sp_name : name;                           (* stack_pointer_register_name() *)
   ct_ip_name : name;                           (* instruction_pointer_register_name() *)
   ct_sp_acc : aexp;                              (* MinidumpContext::get_stack_pointer arm (whole body) *)
@@ -70,5 +76,7 @@ Record ctx_table := {
 }.
 
 Definition v_val : name := [118; 97; 108]. (* "val" *)
+Definition v_memo : name := [36; 109; 101; 109; 111].                    (* "$memo" *)
+Definition v_contains : name := [36; 99; 111; 110; 116; 97; 105; 110; 115]. (* "$contains" *)
 Definition v_ga : name := [36; 103; 97].   (* "$ga" *)
 Definition v_iv : name := [36; 105; 118].  (* "$iv" *)
